@@ -172,7 +172,7 @@ func builtinStringMatch(call FunctionCall) Value {
 	return objectValue(call.runtime.newArrayOf(valueArray))
 }
 
-var builtinStringReplaceRegexp = regexp.MustCompile("\\$(?:[\\$\\&\\'\\`1-9]|0[1-9]|[1-9][0-9])")
+var builtinStringReplaceRegexp = regexp.MustCompile("\\$(?:[\\$\\&\\'\\`]|[0-9][0-9]?)")
 
 func builtinStringFindAndReplaceString(input []byte, lastIndex int, match []int, target []byte, replaceValue []byte) []byte {
 	matchCount := len(match) / 2
@@ -197,8 +197,23 @@ func builtinStringFindAndReplaceString(input []byte, lastIndex int, match []int,
 			return nil
 		}
 		matchNumber := int(matchNumberParse)
+		var suffix []byte
+		if len(part) == 3 && part[1] != '0' && matchNumber >= matchCount {
+			// $nn beyond the captures is $n followed by a digit.
+			matchNumber = int(part[1] - '0')
+			suffix = part[2:]
+		}
+		if matchNumber == 0 {
+			return part // $0 and $00 are not replacement patterns
+		}
 		if matchNumber >= matchCount {
-			return nil
+			return suffix
+		}
+		if suffix != nil {
+			if match[2*matchNumber] != -1 {
+				return append(append([]byte{}, target[match[2*matchNumber]:match[2*matchNumber+1]]...), suffix...)
+			}
+			return suffix
 		}
 		offset := 2 * matchNumber
 		if match[offset] != -1 {
